@@ -39,6 +39,12 @@ BUILT["C17"] = ("Lean 4 theorems on a finite-map file system model of Tdf.new / 
 BUILT["C15"] = ("Lean 4 invariant proof (lists aligned, channels Nodup) preserved by every edit of the three channel-mapped block kinds and every history; survivors keep their channel (removal erases one pair), add appends a pair, taken explicit channel refused, automatic channel fresh; + seeded edit histories on real blocks from empty / constructor-filled / decoded starts",
             "Proof over the model for every edit sequence; real EMG, platform-calibration and platform-data blocks are driven through seeded histories and compared pairwise with the model after every edit, then encoded and decoded.",
             NOTE + " Channels (incl. automatic max+1) are kept inside the on-disk range by the generator.", "DESIGN.md §6 C15")
+BUILT["C16"] = ("Lean 4 invariant (every held track has the block's frame count) preserved by every add/assign history; refused add unchanged; assign_all_or_nothing as an equation (installs exactly the list iff every element is acceptable and the iterable does not raise); + seeded call sequences on real Data3D / ForceTorque3D / EMG blocks",
+            "Proof over the model for all call sequences; real blocks are driven with wrong-length tracks, foreign objects at every list position, raising generators and non-iterables, comparing the identity of the held tracks after every call.",
+            NOTE, "DESIGN.md §6 C16")
+BUILT["C18"] = ("Lean 4 lemmas on one labelled list: index = iteration (incl. negative indices), label lookup returns the first match, contains <-> lookup succeeds, KeyError/IndexError/TypeError cases; + real blocks of four kinds x all key kinds",
+            "Proof over the model for every list and key; four real block kinds with duplicate/empty/near-equal labels are probed with every integer in range and beyond, labels, items and foreign key types; identity of results, exception classes and unchanged encoding compared.",
+            NOTE, "DESIGN.md §6 C18")
 CONT = "Lean 4 refinement proof: byte-level L0 model of add/remove/replace/setters (seek/write/truncate) simulates the list-of-blocks spec on every well-formed layout (add_sim, remove_sim, run_sim by induction over histories, any table length); "
 BUILT.update({
     "C03": (CONT + "corollary wfB(image)=true; + seeded history correspondence with Lean's wfB judging the real bytes after every call",
